@@ -128,17 +128,25 @@ def run(ctx: Context, col) -> None:
             text="overridden max term")
     # R6.6 writers of batch_order in live code
     eff = ctx.effects(cls)
-    roots = ["__init__", "solve", "load_checkpoint", "restore", "save", "_restore_state_from_checkpoint"]
-    seen = {}
-    stack = [ctx.ct.lookup(cls, r) for r in roots if ctx.ct.lookup(cls, r)]
-    while stack:
-        o, fn = stack.pop()
-        kq = (o.qualname, fn.name)
-        if kq in seen:
-            continue
-        seen[kq] = (o, fn)
-        stack.extend(eff.callees(fn, o))
-    writers = sorted(fn.name for (o, fn) in seen.values() if "batch_order" in eff.direct(fn)[1])
+    def reach(roots):
+        seen_ = {}
+        stack = [ctx.ct.lookup(cls, r) for r in roots if ctx.ct.lookup(cls, r)]
+        while stack:
+            o, fn = stack.pop()
+            kq = (o.qualname, fn.name)
+            if kq in seen_:
+                continue
+            seen_[kq] = (o, fn)
+            if fn.name == "_restore_state_from_checkpoint" and "_restore_state_from_checkpoint" not in roots:
+                continue  # what the restore does is judged separately
+            stack.extend(eff.callees(fn, o))
+        return seen_
+    seen = reach(["__init__", "solve", "load_checkpoint", "restore", "save", "_restore_state_from_checkpoint"])
+    live = reach(["__init__", "solve", "load_checkpoint", "restore", "save"])
+    # a method that only the restore reaches (a restore hook) writes what a checkpoint holds, like the restore itself
+    only_restore = {fn.name for kq, (o, fn) in seen.items() if kq not in live}
+    writers = sorted("_restore_state_from_checkpoint" if fn.name in only_restore else fn.name
+                     for (o, fn) in seen.values() if "batch_order" in eff.direct(fn)[1])
     # the constructor's None and a restore from a checkpoint (which can only bring back that None) are the only writers
     ok6 = not (set(writers) - {"_initialize_solver_state_elements", "_restore_state_from_checkpoint"}) \
         and "_initialize_solver_state_elements" in writers
